@@ -33,7 +33,26 @@ Json genAnyRouterSession(Rng &r, const std::string &tier, bool forC20) {
     g.trailingEdits = !forC20;
     if (extendRouterCfgForMix) extendRouterCfgForMix(r, g, forC20);
     if (tier == "thorough") { g.maxShapes = 10; g.maxConns = 8; g.maxSteps = 9; }
-    return genRouterSession(r, g);
+    Json sess = genRouterSession(r, g);
+    if (!forC20) {
+        // side stream (memory-safety worlds only): ephemeral connectors -- created and deleted again before the router has processed
+        // them (a click that is undone at once), somewhere in the history; ids of their own, so nothing else refers to them
+        Rng r2(Rng::mix(r.s, "ephemeral-connector"));
+        if (r2.chance(0.35)) {
+            Json ops = sess["ops"]; int k = r2.range(1, 2);
+            for (int i = 0; i < k; i++) {
+                size_t at = (size_t)r2.below(ops.size() + 1);
+                Json a = Json::obj(); a.set("op", "addConn"); a.set("id", 900 + i);
+                Json ea = Json::obj(), eb = Json::obj(); Json pa = Json::arr(), pb = Json::arr();
+                pa.push((double)r2.below(50) * 10); pa.push((double)r2.below(50) * 10); pb.push((double)r2.below(50) * 10); pb.push((double)r2.below(50) * 10 + 5);
+                ea.set("pt", pa); eb.set("pt", pb); a.set("src", ea); a.set("dst", eb); a.set("ctor", (long)r2.below(2));
+                Json d = Json::obj(); d.set("op", "deleteConn"); d.set("id", 900 + i);
+                ops.a.insert(ops.a.begin() + (long)at, d); ops.a.insert(ops.a.begin() + (long)at, a);
+            }
+            sess.set("ops", ops);
+        }
+    }
+    return sess;
 }
 
 std::vector<MixSessionGen> &mixSessionGens() { static std::vector<MixSessionGen> v; return v; }
